@@ -22,6 +22,9 @@
 //!                 sockets); every single-bit corruption (and sampled double flips) of a valid frame must have no
 //!                 effect at all (socket state, emitted frames) unless the corrupted packet still verifies
 //!                 under the independent implementation; every frame the stack emits is verified as well.
+//!   oracle-frag   fragmented IPv4 egress (UDP / ICMP / raw socket sends and an oversized echo request's reply at
+//!                 IP MTUs 68..576 on Medium::Ip and Ethernet): the IPv4 header checksum of every emitted
+//!                 fragment, and the transport checksum after independent reassembly
 use smoltcp::iface::{Config, Interface, SocketHandle, SocketSet};
 use smoltcp::phy::{Checksum, ChecksumCapabilities, Medium};
 use smoltcp::socket::{icmp, tcp, udp};
@@ -940,6 +943,7 @@ fn main() {
         }
         "oracle" => oracle_emit(seed, n, &tier, &mut out),
         "oracle-iface" => oracle_iface(seed, n, &tier, &mut out),
+        "oracle-frag" => oracle_frag(seed, n, &tier, &mut out),
         "oracle-replay" => oracle_replay(&mut out),
         x => panic!("unknown subcommand {}", x),
     }
